@@ -33,10 +33,12 @@ PROPERTIES["C08"] = dict(
         "symbolically on an arbitrary valid UTF-8 text of symbolic length (every byte value, so ASCII, 2/3/4-byte "
         "characters, CR, LF arise by themselves) and arbitrary (also overshooting) positions; CBMC decides, for all such "
         "inputs within the bound, equality with an LSP reference text model written over bytes in the harness "
-        "(UTF-16 columns, clamp at end of line / end of text, ranged change, range-less change = full replacement, "
-        "batched changes relative to their predecessor). Counterexamples are replayed natively before being reported."),
+        "(UTF-16 columns, clamp at end of line / end of text). The real to_text_changes is executed on four CONCRETE texts "
+        "(ASCII/astral/LF, 2-byte/CRLF, two bytes, empty) with ONE fully symbolic content change (ranged or range-less, "
+        "overshooting positions, symbolic inserted string); its result, folded like AnalyzedSource::update folds it, must "
+        "equal the reference. Batches of several changes are NOT covered (out of reach). Counterexamples are replayed natively."),
     assumptions=[
-        "texts in which a CR is not followed by LF (lone CR as line break) are assumed away",
+        "texts in which a CR is not followed by LF (lone CR as line break) are assumed away wherever the LSP reference is compared; the reference-free round trip (P2r) includes them",
         "positions pointing into the middle of a surrogate pair are not compared (only: result is a char boundary inside the text)",
         "inverted ranges (start > end) are assumed away (LSP precondition)",
         "as_position round trip is asserted for indices on char boundaries that are not between CR and LF",
@@ -45,8 +47,9 @@ PROPERTIES["C08"] = dict(
         "trusted: kani-compiler MIR->GOTO translation, CBMC, CaDiCaL, core::str::from_utf8, String::replace_range",
     ],
     outside=[
-        "texts longer than the stated byte bound; more than two changes per notification",
-        "P4 (batch of two): first change restricted to an insertion of one of {x, LF, U+1F600} at (0,0),(0,1) or (1,0)",
+        "texts longer than the stated byte bound",
+        "more than ONE content change per notification (seven reductions of a two-change harness exhaust 30 GB)",
+        "to_text_changes on texts other than the four concrete ones (symbolic text does not finish even for 1 byte)",
         "the broker's HashMap plumbing and the lexer/parser update that follows the text update",
     ],
     harnesses=[
